@@ -89,6 +89,9 @@ func StdEnv() []EnvVal {
 		{"fdate", &dtpb.Date{ValueUs: us(d), Timezone: "UTC", Precision: dtpb.Date_MONTH}, "elem-prim"},
 		{"fdt", &dtpb.DateTime{ValueUs: us(d), Timezone: "+05:30", Precision: dtpb.DateTime_SECOND}, "elem-prim"},
 		{"fdtday", &dtpb.DateTime{ValueUs: us(d), Timezone: "UTC", Precision: dtpb.DateTime_DAY}, "elem-prim"},
+		{"fdnp", &dtpb.Date{ValueUs: us(d), Timezone: "UTC"}, "elem-prim"},     // hand-built elements without a precision
+		{"fdtnp", &dtpb.DateTime{ValueUs: us(d), Timezone: "Z"}, "elem-prim"},
+		{"ftnp", &dtpb.Time{ValueUs: 3723000000}, "elem-prim"},
 		{"finst", &dtpb.Instant{ValueUs: us(d), Timezone: "Z", Precision: dtpb.Instant_MILLISECOND}, "elem-prim"},
 		{"ftime", &dtpb.Time{ValueUs: 3723000000, Precision: dtpb.Time_SECOND}, "elem-prim"},
 		{"fqty", &dtpb.Quantity{Value: &dtpb.Decimal{Value: "5.5"}, Code: &dtpb.Code{Value: "mg"}, Unit: &dtpb.String{Value: "mg"}}, "elem-prim"},
